@@ -17,7 +17,7 @@ func init() {
 		c.R.NotDecided = append(c.R.NotDecided, "equality of the parsed-back description over the parameter space (value level)")
 		c05Registry(c)
 		c05FMTPFields(c)
-		c.R.Rule("C05/ORDER", "no SDP / format parser lets the parsed value depend on map iteration order (order-dependent failures are reported as observations: the property speaks of 'a description or an error')", 10)
+		c.R.Rule("C05/ORDER", "no SDP / format parser lets the parsed value depend on map iteration order (order-dependent failures are reported as observations: the property speaks of 'a description or an error')", 4)
 		mapOrderRule(c, "C05/ORDER", []string{"pkg/format", "pkg/description", "pkg/sdpunmarshaler"}, false)
 		c05SDPState(c)
 		noPanicFor(c, "C05")
